@@ -229,6 +229,8 @@ func (h *vDB) stopImage() (*vrt.FS, string) {
 		img.Activate()
 		return img, h.dir
 	}
+	// the flusher goroutine must be idle: a copy taken while it writes is not the image of any kill
+	h.runPendingNative()
 	img := h.fs.CopyTree()
 	return img, filepath.Join(img.Root, strings.TrimPrefix(h.dir, h.fs.Root))
 }
